@@ -3,6 +3,7 @@ package main
 
 import (
 	"bytes"
+	"context"
 	"encoding/json"
 	"fmt"
 	"io"
@@ -321,6 +322,100 @@ type helloChannel struct {
 
 func (helloChannel) Close() error { return nil }
 
+// Callable plugins: what a plugin process really describes itself with is CallableSchema.SelfSerialize (the hello
+// message). A callable step is configured through exported fields; whatever it is at the moment of a description is
+// what the description must say - also the second time, after the plugin author has added to it.
+type callableCase struct {
+	Name   string
+	Mutate func(st *schema.CallableStepSchema[any, map[string]any])
+}
+
+func callableCases() []callableCase {
+	return []callableCase{
+		{"described twice, unchanged", func(st *schema.CallableStepSchema[any, map[string]any]) {}},
+		{"a signal handler added after the first description", func(st *schema.CallableStepSchema[any, map[string]any]) {
+			st.SignalHandlersValue["resume"] = callableSignal("resume")
+		}},
+		{"display data set after the first description", func(st *schema.CallableStepSchema[any, map[string]any]) {
+			st.DisplayValue = schema.NewDisplayValue(schema.PointerTo("Step"), schema.PointerTo("does things"), nil)
+		}},
+		{"an output and an emitter added after the first description", func(st *schema.CallableStepSchema[any, map[string]any]) {
+			st.OutputsValue["late"] = schema.NewStepOutputSchema(callableScope("Late"), nil, true)
+			st.SignalEmittersValue["progress"] = schema.NewSignalSchema("progress", callableScope("Progress"), nil)
+		}},
+		{"the input scope replaced after the first description", func(st *schema.CallableStepSchema[any, map[string]any]) {
+			st.InputValue = callableScope("In2")
+		}},
+	}
+}
+
+func callableScope(id string) *schema.ScopeSchema {
+	return schema.NewScopeSchema(schema.NewObjectSchema(id, map[string]*schema.PropertySchema{
+		"n": schema.NewPropertySchema(schema.NewIntSchema(schema.IntPointer(0), nil, schema.UnitBytes), nil, false, nil, nil, nil, schema.PointerTo("1"), nil),
+		"s": schema.NewPropertySchema(schema.NewStringSchema(nil, nil, nil), schema.NewDisplayValue(schema.PointerTo("S"), nil, nil), true, nil, nil, nil, nil, nil),
+	}))
+}
+
+func callableSignal(id string) schema.CallableSignal {
+	return schema.NewCallableSignal[any, map[string]any](id, callableScope("Sig_"+id), nil, func(context.Context, any, map[string]any) {})
+}
+
+func newCallableStep() *schema.CallableStepSchema[any, map[string]any] {
+	st := schema.NewCallableStepWithSignals[any, map[string]any]("s", callableScope("In"),
+		map[string]*schema.StepOutputSchema{"success": schema.NewStepOutputSchema(callableScope("Out"), nil, false)},
+		map[string]schema.CallableSignal{"pause": callableSignal("pause")},
+		map[string]*schema.SignalSchema{"tick": schema.NewSignalSchema("tick", callableScope("Tick"), nil)},
+		nil, nil,
+		func(context.Context, any, map[string]any) (string, any) { return "success", map[string]any{"s": "x"} })
+	return st.(*schema.CallableStepSchema[any, map[string]any])
+}
+
+func (c *checker) callable(cc callableCase) {
+	c.guard("callable plugin", func() {
+		st := newCallableStep()
+		cs := schema.NewCallableSchema(st)
+		d1, err := cs.SelfSerialize()
+		if err != nil {
+			c.fail("callable plugin SelfSerialize fails", err.Error())
+			return
+		}
+		c.res.Nontrivial++
+		c.res.Evaluations++
+		rebuilt, err := schema.UnserializeSchema(d1)
+		if err != nil {
+			c.fail("the SDK rejects the self-description of a callable plugin", err.Error())
+			return
+		}
+		if dd, err := rebuilt.SelfSerialize(); err != nil || !ukit.Equiv(canon(d1), canon(dd)) {
+			c.fail("callable plugin describe -> rebuild -> describe is not a fixed point", fmt.Sprintf("err=%v\nfirst:  %s\nsecond: %s", err, ukit.Show(canon(d1)), ukit.Show(canon(dd))))
+			return
+		}
+		// the plugin author goes on configuring the step; the next description (the next engine connecting) must say
+		// what the step is now - exactly what a plugin built that way from the start says
+		cc.Mutate(st)
+		d2, err := cs.SelfSerialize()
+		if err != nil {
+			c.fail("callable plugin SelfSerialize fails the second time", err.Error())
+			return
+		}
+		fresh := newCallableStep()
+		cc.Mutate(fresh)
+		want, err := schema.NewCallableSchema(fresh).SelfSerialize()
+		if err != nil {
+			c.fail("callable plugin SelfSerialize fails", err.Error())
+			return
+		}
+		c.res.Evaluations++
+		if !ukit.Equiv(canon(d2), canon(want)) {
+			c.fail("the second self-description of a callable plugin is not that of the plugin as it is now", fmt.Sprintf("%s\nsecond description: %s\nplugin built that way from the start: %s", cc.Name, ukit.Show(canon(d2)), ukit.Show(canon(want))))
+			return
+		}
+		if _, err := schema.UnserializeSchema(d2); err != nil {
+			c.fail("the SDK rejects the second self-description of a callable plugin", err.Error())
+		}
+	})
+}
+
 func (c *checker) plugin(p pluginSpec, wrapped bool) {
 	var orig *schema.SchemaSchema
 	if !c.guard("build plugin", func() { orig = buildPlugin(p) }) {
@@ -502,6 +597,9 @@ func main() {
 			for i := range nilCases() {
 				out = append(out, batch{"nil", i})
 			}
+			for i := range callableCases() {
+				out = append(out, batch{"callable", i})
+			}
 			return out
 		},
 		Run: func(tier string, raw json.RawMessage, from int, deadline time.Time) ux.Result {
@@ -519,6 +617,9 @@ func main() {
 			} else if b.Kind == "nil" {
 				nc := nilCases()[b.Idx]
 				(&checker{res: &res, name: nc.Name, rp: replay{"nil", nil, b.Idx}}).nilCase(nc)
+			} else if b.Kind == "callable" {
+				cc := callableCases()[b.Idx]
+				(&checker{res: &res, name: "callable plugin, " + cc.Name, rp: replay{"callable", nil, b.Idx}}).callable(cc)
 			} else {
 				p := plugins()[b.Idx]
 				c := &checker{res: &res, name: "plugin " + p.Name, rp: replay{"plugin", nil, b.Idx}}
@@ -538,13 +639,16 @@ func main() {
 			} else if r.Kind == "nil" {
 				nc := nilCases()[r.Idx]
 				(&checker{res: &res, name: nc.Name, rp: r}).nilCase(nc)
+			} else if r.Kind == "callable" {
+				cc := callableCases()[r.Idx]
+				(&checker{res: &res, name: "callable plugin, " + cc.Name, rp: r}).callable(cc)
 			} else {
 				p := plugins()[r.Idx]
 				(&checker{res: &res, name: "plugin " + p.Name, rp: r}).plugin(p, false)
 			}
 			return res.Findings
 		},
-		Rule: "every spec of U_2 wrapped as a scope (all kinds, units, enums with display names, defaults, presence rules, disabled properties, nested scopes, recursive references) plus a display/unenforced-id scope: d = SelfSerialize; for each of {direct, CBOR round trip, YAML round trip}: rebuilt = UnserializeScope(d') (plus DescribeScope().Unserialize + ApplySelf for the behaviour comparison), d2 = rebuilt.SelfSerialize must equal d, and rebuilt must agree with the original on accept/reject, unserialized value (map-based schemas) and serialized form for every raw value of V(spec); every one of those scopes also as input, output, signal handler and signal emitter of a one-step plugin rebuilt from a real hello message by Client.ReadSchema (description fixed point, behaviour of the input); 8 schemas built with nil or empty collections (no properties, no steps, no outputs / signals); 3 whole plugin schemas (1-2 steps, several outputs, signal handlers and emitters with recursive and one-of scopes) rebuilt through UnserializeSchema and through a real hello message read by Client.ReadSchema, with the same comparison for every input, output and signal data scope; non-trivial = schemas that described themselves",
+		Rule: "every spec of U_2 wrapped as a scope (all kinds, units, enums with display names, defaults, presence rules, disabled properties, nested scopes, recursive references) plus a display/unenforced-id scope: d = SelfSerialize; for each of {direct, CBOR round trip, YAML round trip}: rebuilt = UnserializeScope(d') (plus DescribeScope().Unserialize + ApplySelf for the behaviour comparison), d2 = rebuilt.SelfSerialize must equal d, and rebuilt must agree with the original on accept/reject, unserialized value (map-based schemas) and serialized form for every raw value of V(spec); every one of those scopes also as input, output, signal handler and signal emitter of a one-step plugin rebuilt from a real hello message by Client.ReadSchema (description fixed point, behaviour of the input); 8 schemas built with nil or empty collections (no properties, no steps, no outputs / signals); 3 whole plugin schemas (1-2 steps, several outputs, signal handlers and emitters with recursive and one-of scopes) rebuilt through UnserializeSchema and through a real hello message read by Client.ReadSchema, with the same comparison for every input, output and signal data scope; a callable plugin (CallableSchema.SelfSerialize, what the hello message is made from) described, rebuilt and described again, then configured further through its exported fields (signal handler, display, output and emitter, input scope) and described a second time: the second description must be that of a plugin built that way from the start; non-trivial = schemas that described themselves",
 		Assumptions: []string{
 			"descriptions are compared after CBOR normalisation (dynamic Go types of numbers and maps differ by transport)",
 			"schemas referring to foreign namespaces are excluded (they cannot be linked from their own description alone)",
